@@ -1,7 +1,7 @@
 ''' Dispatchers the instrumented code calls instead of builtins (namespace __vf__). '''
 import sys
 import builtins as _b
-from .engine import (SInt, SBool, SBuf, SStr, Lit, Ref, Unsupported, is_sym, has_sym, blen, cur, mk_int,
+from .engine import (SFloat, SInt, SBool, SBuf, SStr, Lit, Ref, Unsupported, is_sym, has_sym, blen, cur, mk_int,
                      Ctx, _z)
 from . import symstruct
 from .containers import VDict, VSet
@@ -40,6 +40,8 @@ def b_int(*a, **k):
             return x.v
         if isinstance(x, SBuf):
             raise Unsupported('int() of symbolic buffer')
+        if type(x) is SFloat:
+            return x.havoc_int()
         if len(a) == 1 and not k and type(x) not in (int, str, bytes, float, bool):
             f = getattr(type(x), '__int__', None) or getattr(type(x), '__index__', None)
             if f is not None:
